@@ -43,6 +43,20 @@ Fixpoint h_it_run (h : heap) (it : hiter) (lru_order : bool) (rs : list req)
   end.
 
 
+(** the whole iterator script of the harness on one list (Iter.iter_script at layer L): [pre] on a fresh
+    iterator, then a clone of the iterator is taken (the cloneable kinds); [pa] continues on the original,
+    [pb] on the clone *)
+Definition it_strip (kd : iter_kind) (r : req) : req := if ik_mut kd then r else (fst r, None).
+Definition it_ro (r : req) : req := (fst r, None).
+
+Definition h_iter_script (h : heap) (q : hlru) (kd : iter_kind) (pre pa pb : list req)
+  : hres (heap * (list (option entry * nat) * list (option entry * nat) * list (option entry * nat))) :=
+  hdo it0 <- h_iter h q;
+  hdo (h1, it1, y0, a0) <- h_it_run h it0 (ik_lru kd) (map (it_strip kd) pre);
+  hdo (h2, it2, ya, aa) <- h_it_run h1 it1 (ik_lru kd) (map (it_strip kd) pa);
+  hdo (h3, it3, yb, ab) <- h_it_run h2 it1 (ik_lru kd) (map it_ro pb);
+  HOk (h3, (y0, ya, yb)).
+
 (** ** [Clone for RawLRU]: a new pair of sentinels, then one [put] per entry read through the [iter_lru]
     cursor of the original, least recent first *)
 Fixpoint h_clone_loop (n : nat) (h : heap) (it : hiter) (q' : hlru) : hres (heap * hlru) :=
